@@ -225,11 +225,15 @@ func (m *wModel) checkOptions(opi int, f *ref.Frame) {
 	if !f.BlockIndep {
 		j.add("frame-options", "block-independence", "W%d op %d: frame declares dependent blocks", m.wi, opi)
 	}
-	// blocks are cut at exactly the block size unless a Flush intervened
+	// (Modern frames: that non-final blocks are full is not demanded by any
+	// property - only that none exceeds the declared maximum, which the
+	// reference parser enforces, and that boundaries do not depend on the
+	// Write partition, which C14 checks byte for byte. It is recorded as a
+	// probe only.)
 	if !m.flushed && !m.usedRFShort() {
 		for i, b := range f.Blocks {
 			if i < len(f.Blocks)-1 && b.DecLen != f.BlockMax {
-				j.add("frame-options", "block-fill", "W%d op %d: non-final block %d holds %d bytes, block size is %d", m.wi, opi, i, b.DecLen, f.BlockMax)
+				j.out.Probes.Add("out.of.scope", 1)
 				break
 			}
 		}
@@ -678,7 +682,9 @@ func (j *judge) judgeReaderBasic(ri int) {
 					key = "accepted-invalid:" + refErrKey(cv.f)
 				}
 				j.add("clean-end-unsound", key, "R%d op %d: %s completed cleanly after consuming %d bytes that the reference rejects (field %s: %v)", ri, opi, op.Op, cons, cv.f.ErrField, cv.f.Err)
-			case cv.f.Consumed != cons && !cv.f.Legacy && !cv.empty:
+			case cv.f.Consumed > cons && !cv.f.Legacy && !cv.empty:
+				// (reading ahead of the frame end is not forbidden by any
+				// property; stopping short of it while reporting success is)
 				j.add("clean-end-unsound", "consumed-mismatch", "R%d op %d: consumed %d bytes, the frame ends at %d", ri, opi, cons, cv.f.Consumed)
 			case !bytes.Equal(D, cv.content):
 				j.add("clean-end-unsound", "content-"+contentKey(D, cv.content), "R%d op %d: clean end with %d bytes delivered, reference yields %d: %s", ri, opi, len(D), len(cv.content), diffAt(D, cv.content))
